@@ -83,7 +83,12 @@ def _cases(draw):
             mag = draw(st.sampled_from([1e-3, 2.5e-3, 1e-2]))
             d = draw(st.sampled_from([(1, 0, 0), (0, 1, 0), (0, 0, 1), (1, 1, 0), (-1, 0, 1)]))
             dv = [mag * x + 1e-6 * n_imp for x in d]
-            events.append({"kind": "impulse", "tau": tau(), "target": draw(st.sampled_from([T1, T4])),
+            # event times are ISO timestamps with a fractional part: a quarter of the impulses are not on a whole second
+            t_imp = tau()
+            fr = draw(st.sampled_from([0, 0, 0, 0, 0, 0, 0.25, 0.5, 0.75]))
+            if fr and t_imp < n * dt:
+                t_imp = t_imp + fr
+            events.append({"kind": "impulse", "tau": t_imp, "target": draw(st.sampled_from([T1, T4])),
                            "frame": draw(st.sampled_from(["eci", "ntw"])), "dv": dv, "planned": draw(st.booleans())})
         elif kind in ("target_addition", "sensor_addition"):
             events.append({"kind": kind, "tau": tau(), "engine": draw(st.sampled_from([1, 2]))})
@@ -171,7 +176,7 @@ def _build_config(case):
 
 
 def iso_z(t):
-    return t.strftime("%Y-%m-%dT%H:%M:%S.000Z")
+    return t.strftime("%Y-%m-%dT%H:%M:%S.") + f"{t.microsecond // 1000:03d}Z"
 
 
 def _describe(obj):
@@ -246,6 +251,8 @@ def scenario_events(case, rec):
     for e in evs:
         rec.label("kind:" + e["kind"])
         rec.label("aligned" if e["tau"] % dt == 0 else "inside")
+        if e["tau"] != int(e["tau"]):
+            rec.label("fractional_second_event_time")
 
     with _Tap() as tap:
         sc = kit.build(cfg)
